@@ -61,6 +61,9 @@ def handleMint (st : IssueSt) : List String → Option (IssueSt × String)
       let b := st.ms.bank
       let b' := (b.setBal a rowan (b.bal a rowan + amt)).setSup rowan (b.sup rowan + amt)
       some ({ st with ms := { st.ms with bank := b' } }, "ok")
+  | ["mint.chain", _id] =>
+      -- the chain id of the block header: not an input of the model (fact `mint_amount_from_constant`)
+      some (st, "ok")
   | ["mint.addsupply", amt] => do
       let amt ← parseNat amt
       let b := st.ms.bank
@@ -80,7 +83,9 @@ def handleMint (st : IssueSt) : List String → Option (IssueSt × String)
       let per ← parseNat per; let cPrev ← parseNat cPrev; let cNow ← parseNat cNow
       let supPrev ← parseNat supPrev; let supNow ← parseNat supNow
       let holdPrev ← parseNat holdPrev; let holdNow ← parseNat holdNow
-      some (st, toString (Sif.Spec.C20.mintStepOK Sif.Spec.C20.capRowan per cPrev cNow supPrev supNow holdPrev holdNow))
+      -- judged against the property's own numbers: the regenerated constant must be the one on the line
+      some (st, toString (decide (per = Sif.Generated.DispConsts.mintAmountPerBlock) &&
+        Sif.Spec.C20.mintStepOK Sif.Spec.C20.capRowan Sif.Generated.DispConsts.mintAmountPerBlock cPrev cNow supPrev supNow holdPrev holdNow))
   | ["chk", "c20.minttotal", _tag, c0, mintedSum, cNow] => do
       let c0 ← parseNat c0; let mintedSum ← parseNat mintedSum; let cNow ← parseNat cNow
       some (st, toString (Sif.Spec.C20.mintTotalOK Sif.Spec.C20.capRowan c0 mintedSum cNow))
